@@ -348,6 +348,55 @@ func checkC03(w *World, r *Report) {
 		}
 	})
 
+	r.Rule("R03.9", "every bracketed context restarts at the lowest precedence level: what stands between '(' and ')' of a parenthesised expression or function call, between the commas of an argument list, and between '[' and ']' of a predicate is the full Expr (through unit productions only) — otherwise an operator mix is accepted with explicit parentheses and rejected without", 5)
+	r.guard("R03.9", func() {
+		g := w.Gram["expr"]
+		byLHS := map[string][]*Prod{}
+		for _, p := range g.Prods {
+			byLHS[p.LHS] = append(byLHS[p.LHS], p)
+		}
+		resolve := func(n string) string {
+			for i := 0; i < 8; i++ {
+				ps := byLHS[n]
+				if len(ps) == 1 && len(ps[0].RHS) == 1 && g.NonTerms[ps[0].RHS[0].Name] && n != "Expr" {
+					n = ps[0].RHS[0].Name
+					continue
+				}
+				break
+			}
+			return n
+		}
+		isOpen := func(s string) bool {
+			return s == "'('" || s == "','" || s == "'['" || resolveTerm(byLHS, g, s) == "'['"
+		}
+		isClose := func(s string) bool {
+			return s == "')'" || s == "','" || s == "']'" || resolveTerm(byLHS, g, s) == "']'"
+		}
+		n := 0
+		for _, p := range g.Prods {
+			for i := 1; i+1 < len(p.RHS); i++ {
+				mid := p.RHS[i].Name
+				if !g.NonTerms[mid] || !isOpen(p.RHS[i-1].Name) || !isClose(p.RHS[i+1].Name) {
+					continue
+				}
+				if resolveTerm(byLHS, g, mid) != "" {
+					continue // a delimiter wrapped in its own non-terminal
+				}
+				n++
+				got := resolve(mid)
+				// deref()/count() take a location path by design
+				if (got == "LocationPath") && (p.LHS == "DerefFunc" || p.LHS == "CountFunc") {
+					r.Reviewed("R03.9", p.String(), token.NoPos, "deref()/count() take a location path, not an expression (documented restriction of the supported subset)")
+					continue
+				}
+				r.Check(got == "Expr", "R03.9", p.String(), token.NoPos, mid+" ⇒ Expr", "the bracketed operand "+mid+" resolves to "+got+", not to the full Expr: e.g. `a[k = 1 or j = 2]` is a syntax error while `a[(k = 1 or j = 2)]` compiles")
+			}
+		}
+		if n == 0 {
+			panic(undecided{"no bracketed operand position found in xpath.y"})
+		}
+	})
+
 	r.Rule("R03.7", "whitespace between tokens is skipped and carries no state: the lexer's skip arm is exactly {SP,TAB,LF,CR} with no effect; isWhitespace is the same set; LexName's look-aheads go through whitespace-skipping helpers; precToken is written only by SaveTokenType", 6)
 	r.guard("R03.7", func() { c03Whitespace(w, r) })
 
@@ -373,4 +422,14 @@ func tokenCannotPrecedeOperator(w *World) ISet {
 	}
 	t := pe.TrueSet(f).(ISet)
 	return t.complement()
+}
+
+// resolveTerm: if non-terminal n has exactly one production whose RHS is a
+// single terminal, return that terminal ("" otherwise).
+func resolveTerm(byLHS map[string][]*Prod, g *Grammar, n string) string {
+	ps := byLHS[n]
+	if len(ps) == 1 && len(ps[0].RHS) == 1 && !g.NonTerms[ps[0].RHS[0].Name] {
+		return ps[0].RHS[0].Name
+	}
+	return ""
 }
